@@ -94,10 +94,8 @@ mut("verify-opening-or-identity", PED, "        msg.commit(pedersen_params, bf) 
 
 # ---- customer state machine / message construction
 mut("closing-message-not-rerandomized", CUS, "        close_signature.randomize(&mut *rng);\n", "        let _ = &mut *rng;\n", ["c14", "c03"])
-mut("lock-message-reveals-new-pair", CUS, "                    revocation_pair: self.old_state.revocation_pair(),", "                    revocation_pair: self.new_state.revocation_pair(),", ["c14", "c03", "c04"])
 mut("started-close-uses-new-state-and-old-sig", CUS, "            self.old_close_state_signature,\n            self.old_state.close_state(),", "            self.old_close_state_signature,\n            self.new_state.close_state(),", ["c03", "c04"])
 mut("apply-payment-keeps-nonce", STA, "            nonce: Nonce::new(rng),\n            revocation_pair: RevocationPair::new(rng),\n            customer_balance: self.customer_balance.apply(amt)?,", "            nonce: self.nonce,\n            revocation_pair: RevocationPair::new(rng),\n            customer_balance: self.customer_balance.apply(amt)?,", ["c14", "c04", "c02"])
-mut("apply-payment-keeps-revocation-pair", STA, "            revocation_pair: RevocationPair::new(rng),\n            customer_balance: self.customer_balance.apply(amt)?,", "            revocation_pair: self.revocation_pair,\n            customer_balance: self.customer_balance.apply(amt)?,", ["c14", "c03"])
 mut("close-state-swaps-balances", STA, "            merchant_balance: *merchant_balance,\n            customer_balance: *customer_balance,\n        }\n    }", "            merchant_balance: MerchantBalance::try_new(customer_balance.into_inner()).unwrap(),\n            customer_balance: CustomerBalance::try_new(merchant_balance.into_inner()).unwrap(),\n        }\n    }", ["c04", "c03", "c01"])
 
 
